@@ -54,10 +54,16 @@ def oracle(case) -> Info:
     chunks_ = G.split(stream, cuts)
     gap_pattern = ("none", "mixed", "long", "short")[(len(stream) + closing) % 4] if len(chunks_) <= 4000 else "none"
     gaps = fakeclock.gaps_for(len(chunks_), gap_pattern, len(stream))
+    kept = []
     with fakeclock.FakeClock() as clk:  # the harness owns the clock: virtual seconds pass between the calls
         for chunk, gap in zip(chunks_, gaps):
             clk.advance(gap)
-            got.extend(guarded(reader.read, chunk, what="HdlcFrameReader.read"))
+            lst = guarded(reader.read, chunk, what="HdlcFrameReader.read")
+            kept.append((lst, list(lst)))
+    for k, (lst, snap) in enumerate(kept):  # a caller may keep every returned list: later calls must not touch it
+        if len(lst) != len(snap) or any(a is not b for a, b in zip(lst, snap)):
+            fail(f"the list returned by read() call #{k} of {len(kept)} was changed by a later call ({len(snap)} frames then, {len(lst)} now)", sig="returned-list-mutated")
+        got.extend(snap)
     got_b = [guarded(lambda fr=fr: fr.as_bytes) for fr in got]
     if got_b != frames:
         # describe the first difference
